@@ -335,7 +335,7 @@ Proof.
     replace (Nat.eqb (length embs) (length embs1)) with true by (symmetry; apply Nat.eqb_eq; congruence).
     simpl.
     apply andthen_true in H1 as [M1 E1]. apply andthen_true in H2 as [M2 E2].
-    inversion E1 as [E1']. inversion E2 as [E2']. apply embs_loop_eq in E1', E2'; auto. subst.
+    injection E1 as E1'. injection E2 as E2'. apply embs_loop_eq in E1', E2'; auto. subst embs embs0.
     apply andthen_nf.
     + unfold methods_loop in *. apply loop2_true in M1; auto. apply loop2_true in M2; auto.
       apply loop2_nf. eapply Forall2_trans'; [|exact M1|exact M2]. simpl.
@@ -346,7 +346,7 @@ Proof.
       apply andthen_true in P as [P3 P]. apply andthen_true in P as [P4 P5].
       apply andthen_true in Q as [Q3 Q]. apply andthen_true in Q as [Q4 Q5].
       repeat apply andthen_nf; eauto.
-      destruct (mrecv m), (mrecv n), (mrecv o); simpl in *; try discriminate; eauto.
+      destruct (mrecv m), (mrecv n), (mrecv o); simpl in P3, Q3 |- *; try discriminate; eauto.
     + assert (E : embs_loop embs1 embs1 = true) by (apply embs_loop_eq; auto). rewrite E. discriminate.
 Qed.
 
@@ -380,4 +380,183 @@ Lemma identb_trans x y z : identb x y = true -> identb y z = true -> identb x z 
 Proof.
   rewrite !identb_true. intros H1 H2. destruct (ident_some x z) as [[|] E]; auto.
   exfalso. eapply identical_trans_nf; [exact H1|exact H2|exact E].
+Qed.
+
+(* ------------------------------------------------------------ identical types hash equal *)
+Lemma fold_left2_ext {A B} (R : B -> B -> Prop) (f g : A -> B -> A) a b :
+  Forall2 R a b -> (forall h u v, R u v -> f h u = g h v) -> forall h0, fold_left f a h0 = fold_left g b h0.
+Proof. intros H E. induction H; simpl; auto. intros h0. rewrite (E h0 x y H). apply IHForall2. Qed.
+
+Lemma Forall2_forallb {A} (R : A -> A -> Prop) (p q : A -> bool) a b :
+  Forall2 R a b -> forallb p a = true -> forallb q b = true ->
+  Forall2 (fun u v => R u v /\ p u = true /\ q v = true) a b.
+Proof.
+  induction 1; simpl; intros P Q; constructor; apply andb_true_iff in P as [? ?]; apply andb_true_iff in Q as [? ?]; auto.
+Qed.
+
+Lemma existsb_ext' {A} (f g : A -> bool) l : (forall x, f x = g x) -> existsb f l = existsb g l.
+Proof. intros H. induction l; simpl; auto. rewrite H, IHl. reflexivity. Qed.
+
+Lemma same_name_cong a p b q c r : same_name a p b q = true -> same_name a p c r = same_name b q c r.
+Proof.
+  intros H. destruct (same_name a p c r) eqn:E1, (same_name b q c r) eqn:E2; auto.
+  - rewrite (same_name_trans _ _ _ _ _ _ (same_name_sym _ _ _ _ H) E1) in E2. discriminate.
+  - rewrite (same_name_trans _ _ _ _ _ _ H E2) in E1. discriminate.
+Qed.
+
+Lemma inherited_same e embs a p b q : same_name a p b q = true -> inherited e embs a p = inherited e embs b q.
+Proof.
+  intros H. unfold inherited. apply existsb_ext'. intros id. apply existsb_ext'. intros x.
+  apply same_name_cong. exact H.
+Qed.
+
+Section HashProof.
+  Variable nh : N -> Z.
+  Variable e : env.
+
+  Definition hash_tuple (l : list ty) : Z :=
+    fold_left (fun h t => w32 (rotl5 h + 3 * hash nh t)) l (w32 (9137 + 2 * Z.of_nat (length l))).
+  Definition ohash (o : option ty) : Z := match o with None => 0 | Some x => hash nh x end.
+  Definition field_step (h : Z) (p : finfo * ty) : Z :=
+    let (fi, ft) := p in
+    let h1 := if fanon fi then w32 (h + 8861) else h in
+    let h2 := rotl5 h1 in
+    let h3 := w32 (h2 + hash_string (ftag fi)) in
+    let h4 := w32 (h3 + hash_string (fname fi)) in
+    w32 (h4 + hash nh ft).
+  Definition meth_step (h : Z) (m : meth) : Z :=
+    if mexp m then
+      let h1 := w32 (rotl5 h + 7 * hash_string (mnm m)) in
+      let h2 := if mva m then w32 (h1 * 8863) else h1 in
+      w32 (h2 + 3 * hash_tuple (mps m) + 5 * hash_tuple (mrs m))
+    else h.
+
+  Lemma hash_TTuple l : hash nh (TTuple l) = hash_tuple l.
+  Proof. reflexivity. Qed.
+  Lemma hash_TSig r ps rs va : hash nh (TSig r ps rs va) =
+    w32 ((if va then w32 (9091 * 8863) else 9091) + 3 * hash_tuple ps + 5 * hash_tuple rs + 7 * ohash r).
+  Proof. reflexivity. Qed.
+  Lemma hash_TStruct fs : hash nh (TStruct fs) = fold_left field_step fs 9059.
+  Proof. reflexivity. Qed.
+  Lemma hash_TIface ms embs : hash nh (TIface ms embs) =
+    fold_left meth_step ms (fold_left (fun h id => w32 (rotl5 h + 2 * nh id)) embs 9103).
+  Proof.
+    simpl. apply fold_left2_ext with (R := eq).
+    - clear. induction ms; constructor; auto.
+    - intros h u v <-. destruct u; reflexivity.
+  Qed.
+
+  Definition owf (o : option ty) : bool := match o with None => true | Some x => wfb e x end.
+  Definition wf_meth (embs : list N) (m : meth) : bool :=
+    eqb (mexp m) (negb (inherited e embs (mnm m) (mpkg m))) && owf (mrecv m)
+    && forallb (wfb e) (mps m) && forallb (wfb e) (mrs m).
+
+  Lemma wfb_TTuple l : wfb e (TTuple l) = forallb (wfb e) l.
+  Proof. reflexivity. Qed.
+  Lemma wfb_TSig r ps rs va : wfb e (TSig r ps rs va) = owf r && forallb (wfb e) ps && forallb (wfb e) rs.
+  Proof. reflexivity. Qed.
+  Lemma wfb_TStruct fs : wfb e (TStruct fs) = forallb (fun p => wfb e (snd p)) fs.
+  Proof. simpl. induction fs as [|[fi ft] fs IH]; simpl; auto. rewrite IH. reflexivity. Qed.
+  Lemma wfb_TIface ms embs : wfb e (TIface ms embs) = forallb (wf_meth embs) ms.
+  Proof.
+    simpl. induction ms as [|[ex nm pk r ps rs va] ms IH]; simpl; auto. rewrite IH.
+    unfold wf_meth. simpl. rewrite <- !andb_assoc. reflexivity.
+  Qed.
+
+  Lemma hash_tuple_ext a b : Forall2 (fun u v => hash nh u = hash nh v) a b -> hash_tuple a = hash_tuple b.
+  Proof.
+    intros H. unfold hash_tuple. rewrite (Forall2_length' _ _ _ H).
+    apply fold_left2_ext with (R := fun u v => hash nh u = hash nh v); auto.
+    intros h u v ->. reflexivity.
+  Qed.
+
+  Lemma identical_hash f : forall x y, identical f x y = Some true ->
+    wfb e x = true -> wfb e y = true -> hash nh x = hash nh y.
+  Proof.
+    induction f as [|f IH]; [discriminate|]. intros x y H Wx Wy.
+    change (identical (S f) x y) with (identical_step (identical f) x y) in H.
+    destruct x, y; simpl in H; try discriminate.
+    - reflexivity.
+    - injection H as H. apply Z.eqb_eq in H. subst. reflexivity.
+    - injection H as H. apply N.eqb_eq in H. subst. reflexivity.
+    - simpl in *. rewrite (IH _ _ H Wx Wy). reflexivity.
+    - simpl in *. rewrite (IH _ _ H Wx Wy). reflexivity.
+    - apply if_true in H as [E H]. apply Z.eqb_eq in E. subst. simpl in *. rewrite (IH _ _ H Wx Wy). reflexivity.
+    - apply andthen_true in H as [H1 H2]. simpl in Wx, Wy.
+      apply andb_true_iff in Wx as [? ?]. apply andb_true_iff in Wy as [? ?].
+      simpl. rewrite (IH _ _ H1), (IH _ _ H2); auto.
+    - apply if_true in H as [E H]. apply Z.eqb_eq in E. subst. simpl in *. rewrite (IH _ _ H Wx Wy). reflexivity.
+    - apply if_true in H as [E H]. apply Nat.eqb_eq in E. unfold tuple_loop in H. apply loop2_true in H; auto.
+      rewrite !hash_TTuple. rewrite wfb_TTuple in Wx, Wy. apply hash_tuple_ext.
+      eapply Forall2_impl'; [|exact (Forall2_forallb _ _ _ _ _ H Wx Wy)]. simpl. intros u v (A & B & C). eauto.
+    - apply if_true in H as [E H]. rewrite eqb_true_iff in E. subst.
+      apply andthen_true in H as [H1 H]. apply andthen_true in H as [H2 H3].
+      rewrite wfb_TSig in Wx, Wy. rewrite !andb_true_iff in Wx, Wy. destruct Wx as [[? ?] ?], Wy as [[? ?] ?].
+      rewrite !hash_TSig. rewrite <- !hash_TTuple.
+      rewrite (IH _ _ H2), (IH _ _ H3); auto.
+      replace (ohash recv) with (ohash recv0); auto.
+      destruct recv, recv0; simpl in *; try discriminate; auto. symmetry. eauto.
+    - apply if_true in H as [E H]. apply Nat.eqb_eq in E. unfold fields_loop in H. apply loop2_true in H; auto.
+      rewrite !hash_TStruct. rewrite wfb_TStruct in Wx, Wy.
+      pose proof (Forall2_forallb _ _ _ _ _ H Wx Wy) as H'.
+      eapply fold_left2_ext; [exact H'|]. simpl. intros h [fi ft] [gi gt] (A & B & C). simpl in *.
+      unfold field_identical in A. simpl in A. apply if_true in A as [A1 A2].
+      apply finfo_ok_spec in A1 as (F1 & F2 & F3). apply same_name_spec in F3 as [F3 _].
+      unfold field_step. rewrite F1, F2, F3, (IH _ _ A2 B C). reflexivity.
+    - apply if_true in H as [E H]. apply andb_true_iff in E as [E1 E2]. apply Nat.eqb_eq in E1, E2.
+      apply andthen_true in H as [M E']. injection E' as E'. apply embs_loop_eq in E'; auto. subst embs0.
+      unfold methods_loop in M. apply loop2_true in M; auto.
+      rewrite !hash_TIface. rewrite wfb_TIface in Wx, Wy.
+      pose proof (Forall2_forallb _ _ _ _ _ M Wx Wy) as M'.
+      eapply fold_left2_ext; [exact M'|]. simpl. intros h m n (A & B & C).
+      unfold meth_identical in A. apply if_true in A as [A1 A]. apply if_true in A as [A2 A].
+      apply andthen_true in A as [_ A]. apply andthen_true in A as [A3 A4]. rewrite eqb_true_iff in A2.
+      unfold wf_meth in B, C. rewrite !andb_true_iff in B, C.
+      destruct B as [[[B1 B2] B3] B4], C as [[[C1 C2] C3] C4]. rewrite eqb_true_iff in B1, C1.
+      unfold meth_step. rewrite B1, C1, (inherited_same _ _ _ _ _ _ A1), A2.
+      apply same_name_spec in A1 as [A1 _]. rewrite A1.
+      rewrite <- !hash_TTuple. rewrite (IH _ _ A3), (IH _ _ A4); auto.
+  Qed.
+
+  Lemma identb_hash x y : identb x y = true -> wfb e x = true -> wfb e y = true -> hash nh x = hash nh y.
+  Proof. rewrite identb_true. unfold ident. apply identical_hash. Qed.
+End HashProof.
+
+(* ------------------------------------------------------------ statements used by Props.v *)
+Lemma identical_total_bound x y : exists b : bool,
+  forall fuel, (size x + size y <= fuel)%nat -> identical fuel x y = Some b.
+Proof.
+  destruct (ident_some x y) as [b E]. exists b. intros fuel H. rewrite ident_fuel; auto.
+Qed.
+
+Lemma identb_equivalence : RelationClasses.Equivalence (fun a b : ty => identb a b = true).
+Proof.
+  constructor.
+  - intros x. apply identb_refl.
+  - intros x y. apply identb_sym.
+  - intros x y z. apply identb_trans.
+Qed.
+
+Lemma identb_hash' (nh : N -> Z) (e : env) a b :
+  wfb e a = true -> wfb e b = true -> identb a b = true -> hash nh a = hash nh b.
+Proof. intros. eapply identb_hash; eauto. Qed.
+
+(* ------------------------------------------------------------ the hash is a uint32 *)
+Definition u32 (z : Z) : Prop := (0 <= z < 4294967296)%Z.
+Lemma w32_range z : u32 (w32 z).
+Proof. unfold u32, w32. apply Z.mod_pos_bound. lia. Qed.
+Lemma fold_range {A} (f : Z -> A -> Z) l : (forall h x, u32 h -> u32 (f h x)) -> forall h0, u32 h0 -> u32 (fold_left f l h0).
+Proof. intros H. induction l; simpl; auto. Qed.
+
+Lemma hash_range (nh : N -> Z) a : (forall i, 0 <= nh i < 4294967296)%Z -> (0 <= hash nh a < 4294967296)%Z.
+Proof.
+  intros Hn. change (u32 (hash nh a)).
+  destruct a; try (simpl; apply w32_range).
+  - simpl. unfold u32. lia.
+  - simpl. apply Hn.
+  - rewrite hash_TTuple. apply fold_range; [|apply w32_range]. intros; apply w32_range.
+  - rewrite hash_TStruct. apply fold_range; [|unfold u32; lia]. intros h [fi ft] _. apply w32_range.
+  - rewrite hash_TIface. apply fold_range.
+    + intros h m Hh. unfold meth_step. destruct (mexp m); auto. apply w32_range.
+    + apply fold_range; [|unfold u32; lia]. intros; apply w32_range.
 Qed.
